@@ -176,7 +176,7 @@ def obligations(tier):
     seen = set()
     for mod in SOURCES:
         m = importlib.import_module(f"vt.props.{mod}")
-        src = [ob for ob in m.obligations(tier) if type(ob) is GOb and ob.raises is None and ob.post is not None
+        src = [ob for ob in m.obligations(tier) if type(ob) is GOb and ob.raises is None and ob.post is not None and "dtype" not in ob.instance   # (an obligation about one particular dtype is not re-run in another)
                and not (tier != "quick" and ("CP_PLSR.transform" in ob.function or (ob.instance.get("order", 0) >= 4 and ":non_negative" in ob.function)))]
         for ob in _select(mod, src, tier):
             key = ob.name.split("/", 1)[1]   # (a call site one property re-discharges from another - C10 from C11 and C13, C20 from C04 - is re-run once)
